@@ -712,7 +712,7 @@ def gen_encode(tier, rng):
     for shape in dense_shapes:
         n0, n1 = shape
         nq = n0 * n1 + ((n0 - 1) * (n1 - 1) + 1) // 2
-        reps = (12 if T else 3) if nq <= 8 else ((6 if T else 1) if nq <= 10 else (4 if T else 1))
+        reps = (40 if T else 8) if nq <= 8 else ((20 if T else 3) if nq <= 10 else (12 if T else 2))
         for r in range(reps):
             yield enc_case(shape, [hop(rand_coeffs(rng, n0, n1, 0.0 if r == 0 else 0.25))])
         # all-zero matrix, on-site only, hopping only, two terms
@@ -729,12 +729,12 @@ def gen_encode(tier, rng):
         shapes = [s for s in shapes if s[0] * s[1] > 6 and rng.random() < 0.45] + [(5, 5), (4, 5)]
     for shape in shapes:
         yield enc_case(shape, [hop(rand_coeffs(rng, *shape, zero_p=0.1))], dense=False)
-    for _ in range(12 if T else 2):
+    for _ in range(40 if T else 6):
         shape = (rng.randint(1, 7), rng.randint(1, 7))
         yield enc_case(shape, [hop(rand_coeffs(rng, *shape, zero_p=0.3))], dense=False)
     yield from gen_encode_malformed(rng)
     if T:
-        for _ in range(3):
+        for _ in range(10):
             yield from gen_encode_malformed(rng)
 
 
@@ -744,7 +744,7 @@ def gen_cases(tier, rng):
         for n1 in range(1, 6):
             yield from gen_shape_cases((n0, n1), rng)
     hi = 12 if T else 8
-    for _ in range(40 if T else 6):
+    for _ in range(120 if T else 10):
         shape = (rng.randint(1, hi), rng.randint(1, hi))
         if max(shape) <= 5:
             shape = (rng.randint(6, hi), shape[1])
